@@ -47,6 +47,8 @@ class Case:
         base, _, opt = mode.partition("+")
         m = base if base == "buffer" else "%s:%s/x%d.xml" % (base, tmpdir, idx)
         post = [a.replace("{TMP}", "%s/g%d.xml" % (tmpdir, idx)) for a in self.anns]
+        if opt == "dirty":
+            opt = "dirty:%s/o%d.xml" % (tmpdir, idx)
         return "\n".join(["case %s" % self.name.replace("\n", " ")] + self.cfg + ["load"] + post + [("rt %s %s %s" % (m, ver, opt)).rstrip(), "end"]) + "\n"
 
 
@@ -71,7 +73,7 @@ def corpus_cases(scratch=None):
                 expect = l.split(" ", 1)[1]
                 continue
             (anns if l.startswith("ann ") else cfg).append(l)
-        out.append(Case("corpus:" + n, "corpus", cfg, anns, ["corpus"], expect=expect))
+        out.append(Case("corpus:" + n, "corpus", cfg, anns, ["corpus", "dirty"] if n.startswith("dirty-") else ["corpus"], expect=expect))
     return out
 
 
@@ -92,6 +94,11 @@ def make_cases(run, scratch=None):
             cl.add("allow")
         # NO_DISTANCES / NO_MEMATTRS / NO_CPUKINDS apply to the reload too ("same flags"): nothing of that kind to round-trip
         anns = [a for a in anns if not ((flags & 128 and a.startswith("ann dist")) or (flags & 256 and a.startswith("ann mattr")) or (flags & 512 and a.startswith("ann cpukind")))]
+        if i % 2:
+            tail = G.gen_dirty_tail(rng)
+            tail = [a for a in tail if not ((flags & 128 and a.startswith("ann dist")) or (flags & 256 and a.startswith("ann mattr")) or (flags & 512 and a.startswith("ann cpukind")))]
+            anns = [a for a in anns if not a.startswith("ann restrict")] + tail
+            cl.add("dirty")
         cases.append(Case("syn%d:%s|flags=%d" % (i, desc, flags), "synthetic", ["filter all 0", "flags %d" % flags, "src synthetic " + desc], anns, cl))
     # a few cases with names hwloc does not sanitise on export (distances / memattr names)
     for i in range(2 if quick else 30):
@@ -177,6 +184,28 @@ def feature_cases(run, scratch):
     out.append((Case("feature:stdio", "feature", SYN, UD, ["feature"]), [(p, "stdio", "v3") for p in ALL] + [(("0", "0"), "stdio", "v2")]))
     out.append((Case("feature:userdata-not-decoded", "feature", SYN, UD, ["feature"]),
                 [(p, m, "v3") for p in ALL for m in ("buffer+nd", "file+nd")] + [(("0", "0"), "stdio+nd", "v3")]))
+    # "dirty" histories: modifying calls immediately before the export, no query in between; buffer and file export of the
+    # same state (forked copy) must agree, the text must not refer to removed objects, then the usual clauses
+    SYN2 = ["filter all 0", "flags 8", "src synthetic package:2 [numa(memory=1048576)] l2:2 pu:2"]
+    DIRTY = [(("0", "0"), "buffer+dirty", "v3"), (("0", "0"), "file+dirty", "v3"), (("1", "1"), "buffer+dirty", "v3"), (("0", "1"), "file+dirty", "v3"),
+             (("1", "0"), "buffer+dirty", "v2")]
+    H = G.hx
+    hist = {
+        "dist-pu-restrict": ["ann dist 4 5 3 " + H(b"PUs"), "ann restrict 0 0"],
+        "dist-numa-restrictnode": ["ann dist 14 5 1 " + H(b"NUMALatency"), "ann mattr 0 1 c 1 77", "ann mattr 1 0 c 2 5", "ann restrictnode 1 0"],
+        "dist-numa-restrictnode-memless": ["ann dist 14 6 2 " + H(b"NodeBW"), "ann restrictnode 0 16"],
+        "hetero-restrict-pu": ["ann disthet 6 4 5 7 " + H(b"Het"), "ann restrict 3 0"],
+        "hetero-restrict-cache": ["ann disthet 6 1 5 7 " + H(b"Het2"), "ann restrict 0 0", "ann restrict 0 0"],
+        "two-matrices-restrict": ["ann dist 4 5 3 " + H(b"A"), "ann dist 6 9 4 " + H(b"B"), "ann disthet 1 4 5 0 " + H(b"C"), "ann restrict 5 1"],
+        "cpukind-mattr-restrict": ["ann cpukind 1 3 1 %s %s" % (H(b"CoreType"), H(b"big")), "ann cpukind 8 1 0", "ann mattrreg %s 5" % H(b"MyBW"),
+                                   "ann mattr 6 0 c 3 100", "ann mattr 6 1 o 2 200", "ann mattr 0 0 c 1 9", "ann restrict 2 0"],
+        "restrict-then-dist": ["ann restrict 7 0", "ann dist 4 5 3 " + H(b"After")],
+        "dist-remove": ["ann dist 4 5 3 " + H(b"Gone"), "ann dist 14 5 1 " + H(b"Kept?"), "ann distremove"],
+        "group-misc-allow-info": ["ann dist 1 5 2 " + H(b"Pk"), "ann group 3 4 1 0 0", "ann misc 2 " + H(b"m"), "ann subtype 1 " + H(b"sub<t>"),
+                                  "ann info 2 %s %s" % (H(b"k"), H(b"v&")), "ann ud 2 1 - s0001"],
+    }
+    for nm, anns in hist.items():
+        out.append((Case("feature:dirty:" + nm, "feature", SYN2, anns, ["feature", "dirty"]), DIRTY))
     # topology diffs: export to file and buffer, load both back, apply
     out.append((Case("feature:diff-xml", "feature", SYN, ["diffrt {TMP} %s" % G.hx(b"ref <name> & \"q\""), "ann name 1 s70"], ["feature"]),
                 [(("0", "0"), "buffer", "v3"), (("1", "1"), "buffer", "v3"), (("0", "1"), "file", "v3"), (("1", "0"), "file", "v3")]))
@@ -256,7 +285,7 @@ def parse_output(txt):
     for line in txt.split("\n"):
         if line.startswith("CASE "):
             cur = {"name": line[5:], "ann": [], "A": [], "AX": [], "M": [], "B": [], "BX": [], "UE": [], "UI": [], "load": None,
-                   "X1": None, "X2": None, "reload": None, "bcheck": None, "acheck": None, "X": None, "rt": None, "endrt": False, "other": []}
+                   "X1": None, "X2": None, "XO": None, "XOstatus": None, "reload": None, "bcheck": None, "acheck": None, "X": None, "rt": None, "endrt": False, "other": []}
             res.append(cur)
         elif cur is None:
             continue
@@ -278,6 +307,10 @@ def parse_output(txt):
             cur["ann"].append(line)
         elif line.startswith("load "):
             cur["load"] = line
+        elif line.startswith("XO "):
+            cur["XO"] = line
+        elif line.startswith("XOstatus "):
+            cur["XOstatus"] = line
         elif line.startswith("X1 "):
             cur["X1"] = line
         elif line.startswith("X2 "):
@@ -448,6 +481,48 @@ def cls_tag(cls):
     return "+".join(sorted(cls)) if cls else "none"
 
 
+def text_index_spec(xml):
+    """Spec on the exported text: every object a <distances2>, <distances2hetero>, <memattr_value> or <cpukind> refers to
+    is in the exported object list.  Returns a list of complaints."""
+    bad = []
+    tname = {}
+    objs = re.findall(rb'<object type="([A-Za-z0-9]+)"((?: [a-z_]+="[^"]*")*)', xml)
+    gp_by_type, os_by_type, pus = {}, {}, set()
+    for ty, attrs in objs:
+        a = dict(re.findall(rb' ([a-z_]+)="([^"]*)"', attrs))
+        gp_by_type.setdefault(ty, set()).add(a.get(b"gp_index"))
+        if b"os_index" in a:
+            os_by_type.setdefault(ty, set()).add(a[b"os_index"])
+    for m in re.finditer(rb'<distances2 type="([A-Za-z0-9]+)" nbobjs="(\d+)"[^>]*indexing="(os|gp)"[^>]*>(.*?)</distances2>', xml, re.S):
+        ty, nb, idxing, body = m.groups()
+        idx = b" ".join(re.findall(rb'<indexes length="\d+">([^<]*)</indexes>', body)).split()
+        vals = b" ".join(re.findall(rb'<u64values length="\d+">([^<]*)</u64values>', body)).split()
+        pool = os_by_type.get(ty, set()) if idxing == b"os" else gp_by_type.get(ty, set())
+        if len(idx) != int(nb) or len(vals) != int(nb) ** 2:
+            bad.append("distances2 %s: nbobjs=%s but %d indexes, %d values" % (ty.decode(), nb.decode(), len(idx), len(vals)))
+        for i in idx:
+            if i not in pool:
+                bad.append("distances2 %s index %s (%s) is not an exported object" % (ty.decode(), i.decode(), idxing.decode()))
+                break
+    for m in re.finditer(rb'<distances2hetero nbobjs="(\d+)"[^>]*>(.*?)</distances2hetero>', xml, re.S):
+        nb, body = m.groups()
+        idx = b" ".join(re.findall(rb'<indexes length="\d+">([^<]*)</indexes>', body)).split()
+        if len(idx) != int(nb):
+            bad.append("distances2hetero: nbobjs=%s but %d indexes" % (nb.decode(), len(idx)))
+        for i in idx:
+            ty, _, gp = i.partition(b":")
+            if gp not in gp_by_type.get(ty, set()):
+                bad.append("distances2hetero entry %s is not an exported object" % i.decode())
+                break
+    for m in re.finditer(rb'<memattr_value((?: [a-z_]+="[^"]*")*)', xml):
+        a = dict(re.findall(rb' ([a-z_]+)="([^"]*)"', m.group(1)))
+        if a.get(b"target_obj_gp_index") not in gp_by_type.get(a.get(b"target_obj_type"), set()):
+            bad.append("memattr_value target %s:%s is not an exported object" % (a.get(b"target_obj_type", b"?").decode(), a.get(b"target_obj_gp_index", b"?").decode()))
+        if b"initiator_obj_gp_index" in a and a[b"initiator_obj_gp_index"] not in gp_by_type.get(a.get(b"initiator_obj_type"), set()):
+            bad.append("memattr_value object initiator %s:%s is not an exported object" % (a.get(b"initiator_obj_type", b"?").decode(), a[b"initiator_obj_gp_index"].decode()))
+    return bad
+
+
 def judge_rt(r, ver, flags):
     """r: parsed output of one case under one pairing.  Returns Verdict."""
     v = Verdict()
@@ -479,6 +554,20 @@ def judge_rt(r, ver, flags):
         return v
     for b in bad:
         v.add("userdata-export-rc", b)
+    # ---- spec on the exported text; buffer export == file export of the same (dirty) state ----
+    x1b = hexbytes(kv(r["X1"])["hex"]) if " hex=-" not in r["X1"] else None
+    if x1b is not None or "textspec" in r:
+        for c in (r["textspec"] if "textspec" in r else text_index_spec(x1b))[:2]:
+            v.add("export-text:" + c.split(" ")[0] + "-dangling-reference", "the exported XML refers to an object it does not contain: " + c)
+    if r["rt"] and kv(r["rt"]).get("dirty") == "1":
+        if r["XOstatus"] != "XOstatus exit 0" or not r["XO"] or not r["XO"].startswith("XO rc=0"):
+            v.add("dirty-export:other-channel-failed", "export of the freshly modified topology through the other channel: %s %s" % (r["XOstatus"], (r["XO"] or "")[:40]))
+        elif x1b is not None:
+            xob = hexbytes(kv(r["XO"])["hex"])
+            if xob.rstrip(b"\0") != x1b.rstrip(b"\0"):
+                l1, l2 = x1b.split(b"\n"), xob.split(b"\n")
+                d = next(((x, y) for x, y in zip(l1, l2) if x != y), (b"<%d lines>" % len(l1), b"<%d lines>" % len(l2)))
+                v.add("dirty-export:buffer-differs-from-file", "buffer and file export of the same freshly modified topology differ: %r vs %r" % (d[0][:160], d[1][:160]))
     if not r["reload"] or "rc=0" not in r["reload"]:
         if mk:
             v.add("reload-failed:userdata-plain:" + cls_tag(mk), "hwloc could not load its own export (%s) with plain userdata containing %s" % (r["reload"], "/".join(sorted(mk))))
@@ -794,8 +883,10 @@ def execute(exe, jobs, tmpdir):
                 if k < len(rs):
                     out[i] = rs[k]
                     out[i]["stderr"] = ""
+                    if rs[k]["X1"] and rs[k]["X1"].startswith("X1 rc=0") and " hex=-" not in rs[k]["X1"]:
+                        rs[k]["textspec"] = text_index_spec(hexbytes(kv(rs[k]["X1"])["hex"]))
                     # memory: the exported bytes are needed only for the model comparison (nolibxml export) or when the second export differs
-                    if p[0] == "1" and rs[k]["X1"] and rs[k]["X2"] and " same=1" in rs[k]["X2"]:
+                    if p[0] == "1" and rs[k]["X1"] and rs[k]["X2"] and " same=1" in rs[k]["X2"] and not rs[k]["XO"]:
                         rs[k]["X1"] = rs[k]["X1"].split(" hex=")[0] + " hex=-"
                     if p[0] == "1":
                         rs[k]["M"] = []
@@ -866,13 +957,14 @@ def check(run, replay=None):
                         if ("0", "0") not in ps and rng.random() < 0.5:
                             ps[0] = ("0", "0")
                         for p in ps:
-                            jobs.append((c, p, rng.choice(["buffer", "buffer", "file"]), "v3"))
+                            m = rng.choice(["buffer", "buffer", "file"])
+                            jobs.append((c, p, m + "+dirty" if "dirty" in c.classes else m, "v3"))
                         if rng.random() < 0.3:
                             jobs.append((c, rng.choice(PAIRINGS), "buffer", "v2"))
                     else:
                         for p in PAIRINGS:
                             for mode in ("buffer", "file"):
-                                jobs.append((c, p, mode, "v3"))
+                                jobs.append((c, p, mode + "+dirty" if "dirty" in c.classes else mode, "v3"))
                             jobs.append((c, p, rng.choice(["buffer", "file"]), "v2"))
             results, errs = execute(exe, jobs, tmpdir)
             # ---- judge each round trip ----
